@@ -45,7 +45,7 @@ fn main() {
             let depth: usize = opt.get("depth").and_then(|s| s.parse().ok()).unwrap_or(3);
             let t0 = std::time::Instant::now();
             let ladder: usize = opt.get("ladder").and_then(|s| s.parse().ok()).unwrap_or(40);
-            let r = if opt.contains_key("faults") { harness::instvar::explore_faults(depth, &[9, 17, 20, 33, 70], 16, &[]) } else { harness::instvar::explore(depth, ladder, opt.get("deep").and_then(|s| s.parse().ok()).unwrap_or(5), 16, &[]) };
+            let r = if opt.contains_key("faults") { harness::instvar::explore_faults(depth, &[9, 17, 20, 33, 70], 16, &[]) } else { harness::instvar::explore(depth, ladder, opt.get("deep").and_then(|s| s.parse().ok()).unwrap_or(5), &[5000, 20000, 70000], 16, &[]) };
             println!("instvar depth={depth} faults={} sequences={} steps={} checks={} outcomes={:?} violations={} wall={:.1}s", r.faults, r.sequences, r.steps, r.checks, r.outcomes, r.violations.len(), t0.elapsed().as_secs_f64());
             for v in r.violations.iter().take(8) {
                 println!("  {} {}", v.rule, v.detail);
